@@ -281,6 +281,25 @@ def run(chk):
                 continue
             col.add(f"hash{k}", sha, {"mode": "multi", "dim": "fresh-process", "features": "import-fallback-same-name-in-several-crates",
                                       "lang": lang, "detail": f"process {rep}"})
+    # hash seeds on a feature-rich program: every item of the Compose menu plus alias chains that end in structs and are used as enum
+    # payloads (backends build name -> kind tables while they generate), generated in fresh processes in every language and both modes
+    from .. import compose
+    rich = "".join(t.format(N=f"It{j:02}") for j, (_, t) in enumerate(sorted(compose.MENU.items())))
+    for j in range(4):
+        rich += (f"#[typeshare]\npub struct Base{j} {{ pub b: u32 }}\n#[typeshare]\npub type Mid{j} = Base{j};\n#[typeshare]\npub type Top{j} = Mid{j};\n"
+                 f"#[typeshare]\npub type Over{j} = Top{j};\n")
+    rich += ('#[typeshare]\n#[serde(tag = "t", content = "c")]\npub enum UsesChains { A(Top0), B(Over1), C(Mid2), D(Base3), E(Over3), F { x: Top2, y: Vec<Over0> } }\n')
+    for lang in common.LANGS:
+        for mode in ("single", "multi"):
+            if lang == "go" and mode == "multi":
+                continue
+            d = os.path.join(work, f"rich_{lang}_{mode}")
+            cli.make_tree(os.path.join(d, "src_root"), {"rich/src/lib.rs": rich})
+            for rep in range(24 if thorough else 8):
+                r, sha, _ = run_once(d, lang, mode, {}, f"s{rep}")
+                if r["exit"] != "ok":
+                    sha = "refused:" + r["exit"]          # Kotlin / Swift / Scala refuse nothing here; whatever the outcome, it is the same in every process
+                col.add(f"rich_{lang}_{mode}", sha, {"mode": mode, "dim": "fresh-process", "features": "feature-rich-program", "lang": lang, "detail": f"process {rep}"})
     # hash-order side, systematically: MC_C06_ws workspaces with an ambiguous name, each in several fresh processes
     wres = common.run_tlc("MC_C06_ws", cfg="MC_C06_ws_thorough" if thorough else "MC_C06_ws_quick", workers=2, timeout=300)
     chk.add_tlc("MC_C06_ws", wres)
